@@ -77,6 +77,52 @@ func RecvNamed(f *types.Func) *types.Named {
 	return NamedOf(sig.Recv().Type())
 }
 
+// FlatStruct returns a view of struct type t (a named type, a pointer to one, or a struct) in
+// which the fields of embedded repository structs appear next to the direct fields, the way
+// selector expressions see them (promoted fields). The *types.Var objects are the original
+// ones, so identity comparisons with FieldVar(...) keep working; the embedded field itself
+// stays in the list. Embedded library types (sync.Mutex, ...) are not opened. nil if t is no struct.
+func FlatStruct(t types.Type) *types.Struct {
+	if pt, ok := types.Unalias(t).(*types.Pointer); ok {
+		t = pt.Elem()
+	}
+	st, ok := t.Underlying().(*types.Struct)
+	if !ok {
+		return nil
+	}
+	var fields []*types.Var
+	var tags []string
+	seen := map[*types.Struct]bool{}
+	var walk func(s *types.Struct)
+	walk = func(s *types.Struct) {
+		if seen[s] {
+			return
+		}
+		seen[s] = true
+		for i := 0; i < s.NumFields(); i++ {
+			f := s.Field(i)
+			fields = append(fields, f)
+			tags = append(tags, s.Tag(i))
+			if f.Embedded() {
+				ft := f.Type()
+				if pt, ok := types.Unalias(ft).(*types.Pointer); ok {
+					ft = pt.Elem()
+				}
+				if n := NamedOf(ft); n != nil && n.Obj().Pkg() != nil && InRepo(n.Obj().Pkg().Path()) {
+					if es, ok := n.Underlying().(*types.Struct); ok {
+						walk(es)
+					}
+				}
+			}
+		}
+	}
+	walk(st)
+	if len(fields) == st.NumFields() {
+		return st
+	}
+	return types.NewStruct(fields, tags)
+}
+
 // NamedOf strips pointers and returns the named type or nil.
 func NamedOf(t types.Type) *types.Named {
 	for {
